@@ -24,6 +24,8 @@ def run(ctx):
     LK.k7_seen_threading(ctx)
     LK.k10_representative_freshness(ctx, K)
     LK.k12_union_find_discipline(ctx)
+    LK.k18_tree_searcher_purity(ctx)
+    ctx.floor("K18", 6)
     ctx.floor("K12", 2)
     ctx.floor("K10", 4)
     ctx.floor("K1", 6)
